@@ -42,6 +42,13 @@ void Attribute::read(h5x::DataType mem_type, const NDSize &size, std::string *da
 }
 
 void Attribute::write(h5x::DataType mem_type, const NDSize &size, const void *data) {
+    // H5Awrite does not refuse an attribute of a file that was opened read-only: for fixed-size
+    // types it changes the cached value (readable until the file is closed) without any error
+    H5Object file(H5Iget_file_id(hid));
+    unsigned intent = 0;
+    if (file.isValid() && H5Fget_intent(file.h5id(), &intent) >= 0 && !(intent & H5F_ACC_RDWR)) {
+        throw H5Exception("Attribute::write(): file is not open for writing");
+    }
     HErr status = H5Awrite(hid, mem_type.h5id(), data);
     status.check("Attribute::write(): Could not write data");
 }
